@@ -9,16 +9,31 @@ ROOT = os.path.dirname(os.path.abspath(__file__))
 
 TAIL_MARK = 'Observations outside the statements'
 
-BASELINE = '''Repository test suite with every `fix:` commit and every hook commit in place,
-guard off (the pinned command of /root/.vp/BASELINE.json, run in a private
-network namespace so that nothing else can hold port 7472): **5096 passed, 2
-skipped, 361 deselected, 2 xfailed** - the same 5096 as on the pinned commit.
-(One order artefact exists on the pinned commit as well and is unrelated to
-any change here: running `tests/compiler/test_compiler.py` *after*
-`tests/runtime/test_logging.py` in one process makes
-`test_log_msg_printed_locally` fail, because the earlier module leaves the
-`bqskit` logger at a level that filters the message; the pinned command runs
-them in the other order.)
+BASELINE = '''Repository test suite, guard off (there is no hook commit: nothing in /repo
+is guarded). The pinned command of /root/.vp/BASELINE.json, run in a private
+network namespace so that nothing else can hold port 7472, with the 45 fix
+commits up to bd5668f: **5096 passed, 2 skipped, 361 deselected, 2 xfailed** -
+the same 5096 as on the pinned commit. The eight later commits touch only
+`bqskit/runtime/worker.py` (cancel paths). With them: `tests/runtime` +
+`tests/compiler/test_compiler.py` 88 passed (on e8c880d, quiet machine; the
+same 88 passed with each of the eleven runtime seeded changes, which is what
+"passes the existing tests" means for those); `tests/compiler`,
+`tests/passes/control`, `tests/passes/partitioning`, `tests/passes/util` 797
+passed; a last full run on the final tree cecb626 was abandoned at 63% (3242
+passed, 0 failed, 2 errors, both set-up errors of the detached fixture while
+the final evidence run loaded the machine) for lack of time.
+Two artefacts of the repository's own tests, both present on the pinned
+commit and unrelated to any change here: (a) running
+`tests/compiler/test_compiler.py` *after* `tests/runtime/test_logging.py` in
+one process makes `test_log_msg_printed_locally` fail (the earlier module
+leaves the `bqskit` logger at a level that filters the message; the pinned
+command runs them in the other order); (b) the detached fixture of
+`tests/runtime/conftest.py` starts a manager and a server without a
+handshake: on a loaded machine the server gives up on the manager after ~8 s
+("Manager connection refused"), set-up fails, the orphaned pair keeps the
+ports, and every later detached test then hangs in teardown because its
+SIGINT reaches a server that is still starting. Confirmations were therefore
+run on an otherwise idle machine.
 '''
 
 
